@@ -67,6 +67,11 @@ class VirtualBase(abc.ABC):
 VirtualBase.register(Other)
 
 
+class LateVirtualBase(abc.ABC):
+  """Gets its virtual subclasses LATE (LateVirtualBase.register(Leaf) after selections by it
+  have already been made): the answer to issubclass() changes during the process."""
+
+
 class Hooked(RecObj):
   hooked = True
 
